@@ -39,6 +39,7 @@ type compressReport struct {
 	Cases      int          `json:"cases"`
 	Runs       int          `json:"runs"`
 	Checks     int          `json:"checks"`
+	Skipped    int          `json:"skipped"`
 	Nontrivial int          `json:"nontrivial"` // runs where something was dropped and something logical was kept
 	Groups     []*c20.Group `json:"groups"`
 	Samples    []any        `json:"samples"`
@@ -199,6 +200,10 @@ func cmdCompress(args []string) int {
 		}
 		idx++
 		rep.Cases++
+		if c20.Tripped() {
+			rep.Skipped++
+			return nil
+		}
 		n := *rounds
 		if c.Words != nil { // replay of a recorded refinement
 			n = 1
